@@ -88,6 +88,8 @@ STRINGS = ['a', 'hello', 'hello world', '"quoted"', "it's", 'tab\\there', 'nl\\n
            'a  b', 'hash # not a comment', 'comma, separated', 'paren (x)', 'héllo', 'naïve café', 'Grüße', '日本語', 'emoji 😀 ok',
            'mixé 日本 😀', 'ÿ', '\\x7f', 'q\\"q', "q\\'q", 'é\\n', 'ñ\\t€', '~!@$%^&*', 'UPPER lower 123',
            # a backslash that starts no escape stays a backslash, whatever follows it
+           # a colon at the end does not make a label of a string
+           'Name:', 'Enter value:', 'a: b:', 'x:', 'loop :',
            'C:\\été', '\\é', 'a\\ÿb', '\\¡', '\\€uro', '\\日', '\\😀', 'é\\\\é', 'dir\\ça\\là', '\\q', 'a\\ b', '\\.', 'é\\xe9', '\\xe9é']
 
 NONESC = ' qzeEgG.;:-_+=!@$%^&*[]{}<>|~`?/'          # ASCII characters that start no escape sequence after a backslash
@@ -194,6 +196,14 @@ def run(tier, replay):
         rep.count('model_vs_impl_' + v2)
         if v2 == 'differ':
             diffs.append(dict(line=line, model=m[:200], impl=corr.canon_impl(res)[:200]))
+    # text that has no UTF-8 encoding (escapes naming surrogate code points) has no bytes to emit: refused, by whatever exception
+    for t in ['\\ud800', 'a\\udfffb', '\\ud83d\\ude00', 'ok \\udc00']:
+        res = progs.assemble_chunks(asm, '    string ' + t + '\n', False)
+        rep.evaluations += 1
+        rep.count('string_surrogate_' + res.status)
+        if res.status == 'ok':
+            rep.violation('{!r}: a surrogate code point has no UTF-8 encoding but the line assembled to {}'.format('string ' + t, res.bytes.hex()),
+                          dict(case=dict(line='string ' + t)))
     # ---- 3. include_bytes: contents x locations x working directories
     n_inc = include_bytes_cases(asm, rep, rnd, tier, diffs)
     rep.count('include_bytes_cases', n_inc)
@@ -322,16 +332,18 @@ def include_bytes_path_cases(asm, rep, rnd, tier):
             os.symlink(os.path.join('..', 'shared', 'assets'), os.path.join(src_dir, 'assets'))
             size = rnd.choice([1, 4, 9, 32])
             files = [os.path.join(src_dir, 'data.bin'), os.path.join(shared, 'data.bin'), os.path.join(shared, 'assets', 'x.bin'),
-                     os.path.join(src_dir, 'sub', 'y.bin'), os.path.join(other, 'data.bin'), os.path.join(d, 'data.bin')]
+                     os.path.join(src_dir, 'sub', 'y.bin'), os.path.join(other, 'data.bin'), os.path.join(d, 'data.bin'),
+                     os.path.join(src_dir, '.hidden.bin'), os.path.join(src_dir, 'hidden.bin'), os.path.join(src_dir, 'shared', 'data.bin')]
             # the including file's own directory may itself be an -i directory, first or last: the list is searched as given
             dirs = rnd.choice([[], [inc1], [src_dir, inc1], [inc1, src_dir]])
             if len(dirs) == 2 or rnd.random() < 0.5:
                 files += [os.path.join(inc1, 'data.bin'), os.path.join(inc1, 'sub', 'y.bin')]
             for k, f in enumerate(files):
+                os.makedirs(os.path.dirname(f), exist_ok=True)
                 open(f, 'wb').write(bytes([k * 16 + 1 + (j % 13) for j in range(size)]))
             name = rnd.choice(['assets/../data.bin', 'sub/../data.bin', './data.bin', 'assets/x.bin', 'sub/./y.bin', 'sub//y.bin',
                                '../shared/data.bin', '../data.bin', 'assets/../assets/x.bin', os.path.join(shared, 'data.bin'),
-                               'assets/../../src/data.bin'])
+                               'assets/../../src/data.bin', './.hidden.bin', './../shared/data.bin', './/data.bin', '.hidden.bin'])
             main = os.path.join(src_dir, 'main.asm')
             open(main, 'w').write('include_bytes %s\n' % name)
             exp = None
